@@ -81,7 +81,7 @@ def requirements(tier):
         "lambert:hook:newton-iterations-recorded": 3000 * k,
         "sso:mode-i": 2000 * k, "sso:mode-a": 2000 * k, "sso:mode-e": 2000 * k,
         "sso:node-rate-evaluated": 6000 * k, "sso:j2-propagator-drift": 500 * k, "sso:frozen": 200 * k,
-        "bplane:evaluated": 5000 * k, "bplane:pre-periapsis": 1500 * k, "bplane:post-periapsis": 1500 * k,
+        "bplane:evaluated": 5000 * k, "bplane:state-with-history": 2000 * k, "bplane:pre-periapsis": 1500 * k, "bplane:post-periapsis": 1500 * k,
         "bplane:e<2": 500 * k, "bplane:e>5": 500 * k,
         "ltan:mean": 1500 * k, "ltan:true": 1500 * k,
         "beta:ref:Sun": 800 * k, "beta:ref:Moon": 800 * k, "beta:ref:orbit": 800 * k, "beta:ref:on-normal": 100 * k,
@@ -479,7 +479,18 @@ def case_bplane(ctx, job, idx, rng, st):
     ctx.count("bplane:e<2" if e < 2 else ("bplane:e>5" if e > 5 else "bplane:e2-5"))
     w = dict(descr, r=[float(x) for x in r], v=[float(x) for x in v], mu=mu)
     try:
-        sv = StateVector(np.concatenate([r, v]), Date(2020, 1, 1), "cartesian", frame)
+        if idx % 2 == 0:
+            sv = StateVector(np.concatenate([r, v]), Date(2020, 1, 1), "cartesian", frame)
+        else:
+            # an object with a history: the approach state before a trajectory correction, whose derived quantities were
+            # consulted (v_inf, periapsis), corrected on a copy or in place to the state of this case
+            r_d, v_d = el.kep2cart(a * rng.uniform(0.5, 2.0), 1.05 + (e - 1.0) * rng.uniform(0.3, 3.0), inc, raan, argp, nu * rng.uniform(0.2, 1.0), mu)
+            decoy = StateVector(np.concatenate([r_d, v_d]), Date(2020, 1, 1), "cartesian", frame)
+            _ = (decoy.infos.vinf, decoy.infos.kep.a, decoy.infos.rp)
+            sv = decoy.copy() if rng.random() < 0.5 else decoy
+            sv[:] = np.concatenate([r, v])
+            ctx.count("bplane:state-with-history")
+            w["history"] = "infos consulted on an earlier state, then the coordinates replaced (copy or in place)"
         if form != "cartesian":
             sv = sv.copy(form=form)
         bp = bplane(sv)
